@@ -49,7 +49,7 @@ PLAN = {
              "specials, regime boundaries, kernel thresholds +-3, random; thorough: every pattern); each result judged by TLC against "
              "a rigorous enclosure (ball arithmetic, 64 then 200 bits); distinct = distinct (type, function, input)"),
     "C15": dict(suites=["C15"], mc=["MCElem"], hook_trace=True, filter=lambda v: "out-of-domain" not in v.get("diag", ""),
-        rule="driver: per function lattice, random patterns, in-domain magnitudes with random fractions, neighbourhoods of 1 and of "
+        rule="screening: per function 60 000 (thorough: 3 000 000) in-domain inputs are run through the implementation and ranked by their distance from the f64 value of the function, and the worst 150 (1500) of each are logged and judged by the specification (the ranking decides nothing); driver: per function lattice, random patterns, in-domain magnitudes with random fractions, neighbourhoods of 1 and of "
              "multiples of pi/2, tiny arguments, domain edges +-3 ulp; pairs for hypot/powf; verdict = enclosure within the stated "
              "ULP bound of the result's rounding cell (sound: closed intervals), outside the documented domain nothing is demanded",
         assumptions=["powf is judged for x > 0 only (other bases are conventions); atan2(0, 0) is not judged (a convention)",
